@@ -399,6 +399,22 @@ theorem C17_offer_gate_consistent (offer : Offer) (b : Bid) (amt : Int) (minUnit
   simp only [Bool.and_eq_true, bne_iff_ne, ne_eq] at ho
   exact ho.1.1.1
 
+/-- **No term of the offer is optional:** a bid that passes the gate against an offer `OfferSidecar` made has a self
+channel balance exactly when the offer has a push amount (and then the same one), the offer's lease duration is the
+bid's non-zero one, and the flags coincide – in particular "offer says 0 / unset, bid says something" never passes,
+for any of the compared terms. -/
+theorem C17_gate_no_optional_term (offer : Offer) (b : Bid) (amt : Int) (minUnits : Nat)
+    (ho : offerSidecarOK offer = true) (hg : offerGate offer b amt minUnits = true) :
+    (offer.pushAmt = 0 ↔ b.selfChanBalance = 0) ∧ offer.pushAmt = b.selfChanBalance ∧
+    b.kit.leaseDuration ≠ 0 ∧ offer.leaseDurationBlocks = b.kit.leaseDuration ∧
+    (offer.unannounced = true ↔ b.unannounced = true) ∧ (offer.zeroConf = true ↔ b.zeroConf = true) := by
+  obtain ⟨h1, h2, h3, h4⟩ := C17_offer_gate_consistent offer b amt minUnits ho hg
+  have hl : offer.leaseDurationBlocks ≠ 0 := by
+    unfold offerSidecarOK at ho
+    simp only [Bool.and_eq_true, bne_iff_ne, ne_eq] at ho
+    exact ho.1.1.1
+  refine ⟨by rw [h2], h2, by rw [← h1]; exact hl, h1, by rw [h3], by rw [h4]⟩
+
 /-- the gate of the pinned tree admitted bids on which maker and recipient derive different channels: here the
 unannounced flag (which the CLI does not pre-fill from the ticket).  Replayed on the real code by
 `corpus/C17/sidecar-offer-mismatch.json`. -/
